@@ -106,10 +106,14 @@ func (self *LongWaitLockFreeQueue) Len() int {
 type MillisecondWaitLockQueue struct {
 	LockQueue
 	freeTime int64
+	// the absolute millisecond the queue's sweeper goroutine was started for: a slot is shared by the
+	// times that are MILLISECOND_QUEUE_LENGTH apart, and a sweeper that runs late must not be handed
+	// entries that are due one round later
+	checkTime int64
 }
 
 func NewMillisecondWaitLockQueue(baseNodeSize int32, nodeSize int32, queueSize int32) *MillisecondWaitLockQueue {
-	return &MillisecondWaitLockQueue{*NewLockQueue(baseNodeSize, nodeSize, queueSize), 0}
+	return &MillisecondWaitLockQueue{*NewLockQueue(baseNodeSize, nodeSize, queueSize), 0, 0}
 }
 
 type MillisecondWaitLockFreeQueue struct {
@@ -839,7 +843,7 @@ func (self *LockDB) checkMillisecondTimeOut(ms int64, glockIndex uint16) {
 
 	self.managerGlocks[glockIndex].HighPriorityLock()
 	lockQueue := self.millisecondTimeoutLocks[glockIndex][ms%MILLISECOND_QUEUE_LENGTH]
-	if lockQueue == nil {
+	if lockQueue == nil || lockQueue.checkTime != ms {
 		self.managerGlocks[glockIndex].HighPriorityUnlock()
 		return
 	}
@@ -1101,7 +1105,7 @@ func (self *LockDB) checkMillisecondExpried(ms int64, glockIndex uint16) {
 
 	self.managerGlocks[glockIndex].HighPriorityLock()
 	lockQueue := self.millisecondExpriedLocks[glockIndex][ms%MILLISECOND_QUEUE_LENGTH]
-	if lockQueue == nil {
+	if lockQueue == nil || lockQueue.checkTime != ms {
 		self.managerGlocks[glockIndex].HighPriorityUnlock()
 		return
 	}
@@ -1814,8 +1818,14 @@ func (self *LockDB) AddMillisecondTimeOut(lock *Lock) {
 	ms := time.Now().UnixNano()/1e6 + int64(lock.command.Timeout%MILLISECOND_QUEUE_LENGTH)
 
 	lockQueue := self.millisecondTimeoutLocks[lock.manager.glockIndex][ms%MILLISECOND_QUEUE_LENGTH]
+	for lockQueue != nil && lockQueue.checkTime != ms {
+		// the slot still belongs to the sweep of an earlier round that is running late: take the next millisecond
+		ms++
+		lockQueue = self.millisecondTimeoutLocks[lock.manager.glockIndex][ms%MILLISECOND_QUEUE_LENGTH]
+	}
 	if lockQueue == nil {
 		lockQueue = self.freeMillisecondWaitQueues[lock.manager.glockIndex].GetLockQueue()
+		lockQueue.checkTime = ms
 		self.millisecondTimeoutLocks[lock.manager.glockIndex][ms%MILLISECOND_QUEUE_LENGTH] = lockQueue
 		go self.checkMillisecondTimeOut(ms, lock.manager.glockIndex)
 	}
@@ -2008,8 +2018,14 @@ func (self *LockDB) doExpried(lock *Lock, forcedExpried bool, removeWaited bool)
 // pushMillisecondExpried files the hold in the millisecond queue that is swept at ms (caller holds the shard mutex)
 func (self *LockDB) pushMillisecondExpried(lock *Lock, ms int64) {
 	lockQueue := self.millisecondExpriedLocks[lock.manager.glockIndex][ms%MILLISECOND_QUEUE_LENGTH]
+	for lockQueue != nil && lockQueue.checkTime != ms {
+		// the slot still belongs to the sweep of an earlier round that is running late: take the next millisecond
+		ms++
+		lockQueue = self.millisecondExpriedLocks[lock.manager.glockIndex][ms%MILLISECOND_QUEUE_LENGTH]
+	}
 	if lockQueue == nil {
 		lockQueue = self.freeMillisecondWaitQueues[lock.manager.glockIndex].GetLockQueue()
+		lockQueue.checkTime = ms
 		self.millisecondExpriedLocks[lock.manager.glockIndex][ms%MILLISECOND_QUEUE_LENGTH] = lockQueue
 		go self.checkMillisecondExpried(ms, lock.manager.glockIndex)
 	}
